@@ -44,6 +44,6 @@ func init() {
 	defStopServer()
 	defRestartServer()
 	defSetupServer()
-	Pkg.Initialize(nil) // lock
+	Pkg.Initialize(nil, &Server{}) // lock
 	slip.AddPackage(&Pkg)
 }
